@@ -30,6 +30,7 @@ import pandas as pd
 from hypothesis import strategies as st
 
 from ..core import Violation, subcheck, nontrivial_rule, assumptions
+from . import c06 as _c06        # reference root + predicate of finding F06_a (Seeger-Beste noise in the elastic regime)
 
 PROP = "C07"
 
@@ -136,6 +137,18 @@ def _gate(ctx, pred, fid):
     if fid not in cache:
         cache[fid] = ctx.known(fid)
     return cache[fid]
+
+
+def f06a_noisy_value(spec, load, sec):
+    """F06_a (see C06): the Seeger-Beste value at this load is blurred by the cancellation in the middle term by more than
+    a quarter of the solver tolerance - comparisons of two separately solved values are then not bounded by the tolerance."""
+    if spec["law"] != "SB" or load == 0:
+        return False
+    m = {"E": spec["E"], "K": spec["K"], "n": spec["n"]}
+    if abs(load) < 1e-6 * spec["K"]:
+        return True                   # deep in the elastic regime (u = 0 to rounding); also avoids underflow in the reference
+    root = _c06.ref_stress("SB", abs(load), m, spec["K_p"], sec)
+    return _c06.f06a_cancellation("SB", abs(load), root, spec["K_p"], DEFAULT_TOL, DEFAULT_TOL)
 
 
 _CACHE = {}
@@ -482,6 +495,8 @@ def lookup_sc(case, ctx):
         if fn.startswith("strain") and spec["law"] != "spy":
             # strain of a real law: closed form of a stress that carries the solver tolerance - compare through the stress bound
             continue
+        if spec["law"] == "SB" and _gate(ctx, f06a_noisy_value(spec, L, sec) or f06a_noisy_value(spec, el[k - 1], sec), "F06_a"):
+            continue
         if abs(g) < ex - (slack(ex) + slack(g)):
             raise Violation("%s binned %s(%r) = %r under-estimates the wrapped law's %r" % (spec["law"], fn, L, g, ex), bucket="consequence:underestimates:%s" % spec["law"])
         if abs(g) - ex > (table[k - 1] - lower) + slack(ex) + slack(g):
@@ -526,6 +541,9 @@ def per_point(case, ctx):
         for k, (x, y) in enumerate(zip(a, b)):
             tol = 0.0 if spec["law"] == "spy" else (_bound(x) + _bound(y) if not fn.startswith("strain") else None)
             if tol is None:
+                continue
+            if spec["law"] == "SB" and not abs(x - y) <= tol and _gate(ctx, f06a_noisy_value(spec, edge[sec][j][k], sec), "F06_a"):
+                gated = True
                 continue
             if not abs(x - y) <= tol:
                 raise Violation("%s %s table of point %r (max %r) alone has %r in class %d, inside the per-point table %r" % (spec["law"], fn, i, m, x, k + 1, y),
